@@ -14,7 +14,7 @@ VARIABLES tid, l, verdict, feat
 Tc == T.traces[tid]
 Kind == Tc.kind
 
-IsState(op) == op.k \in {"st_get", "st_get_state", "st_set", "st_set_state", "st_clear"}
+IsState(op) == op.k \in {"st_get", "st_get_state", "st_set", "st_set_state", "st_clear", "st_seed"}
 
 SameOp(i) == LET x == Tc.ref[i] y == Tc.alt[i] IN
    /\ x.exc = "-" /\ y.exc = "-" /\ x.r = y.r /\ x.detail = y.detail
